@@ -22,8 +22,8 @@ import traceback
 from pathlib import Path
 
 VERIF = Path(__file__).resolve().parent.parent
-EVIDENCE_DIR = VERIF / "evidence"
-REPLAY_DIR = VERIF / "replays"
+EVIDENCE_DIR = Path(os.environ.get("VERIF_EVIDENCE_DIR", VERIF / "evidence"))
+REPLAY_DIR = Path(os.environ.get("VERIF_REPLAY_DIR", VERIF / "replays"))
 FINDINGS_FILE = VERIF / "known_findings.json"
 
 
@@ -137,7 +137,7 @@ class Ctx:
         for key, (f, vs) in known_hit.items():
             lines.append(f"KNOWN-FINDING: property={self.prop} {f['text']} [{key}; {sum(v['count'] for v in vs)} case(s)]")
         rc = 0
-        REPLAY_DIR.mkdir(exist_ok=True)
+        REPLAY_DIR.mkdir(parents=True, exist_ok=True)
         for i, v in enumerate(new):
             d = REPLAY_DIR / self.prop
             d.mkdir(parents=True, exist_ok=True)
@@ -171,7 +171,7 @@ class Ctx:
             wall_s=round(time.time() - self.t0, 2),
             violations=len(new),
         )
-        EVIDENCE_DIR.mkdir(exist_ok=True)
+        EVIDENCE_DIR.mkdir(parents=True, exist_ok=True)
         (EVIDENCE_DIR / f"{self.prop}.json").write_text(json.dumps(ev, indent=1, default=str) + "\n")
         for ln in lines:
             print(ln)
